@@ -36,9 +36,9 @@ package otelstorage
 //@ scope id.go
 
 //@ func (TraceID).IsEmpty
-//@   modifies nothing
+//@   pure
 //@ func (SpanID).IsEmpty
-//@   modifies nothing
+//@   pure
 //@ func (TraceID).Hex
 //@   modifies nothing
 //@   loop 0 modifies sb.*
